@@ -278,8 +278,20 @@ def sp_round3(eng, st, x):
     return V.vreal(eng.ctx.fm.round_ndigits(eng._num(eng.as_sym(x)), 3))
 
 
+def sp_alt(eng, st, u, i):
+    """The i-th alternative of a union value (meaningful when its tag is i)."""
+    u = eng.as_sym(u)
+    return u.d[1][V.concrete_int(eng.as_sym(i).d)]
+
+
+def sp_tag(eng, st, u):
+    return V.vint(eng.as_sym(u).d[0])
+
+
 def register(reg):
     f = reg.spec_funcs
+    f["alt"] = sp_alt
+    f["tag"] = sp_tag
     f["rxm"] = sp_rxm
     f["rxg"] = sp_rxg
     f["rxg_none"] = sp_rxg_none
